@@ -994,7 +994,27 @@ func (lc *linCtx) inductionFacts(p *ssa.Phi) []cons {
 	atom := p.Name() + "@" + shortFn(p)
 	var inits []lin
 	allUp, allDown := true, true
+	// flatten nested φ-nodes (i = φ(init, φ(i+1, i)) after an if inside the loop)
+	var leaves []ssa.Value
+	seenPhi := map[*ssa.Phi]bool{p: true}
+	var flat func(v ssa.Value)
+	flat = func(v ssa.Value) {
+		if q, ok := v.(*ssa.Phi); ok && q != p {
+			if seenPhi[q] {
+				return
+			}
+			seenPhi[q] = true
+			for _, e := range q.Edges {
+				flat(e)
+			}
+			return
+		}
+		leaves = append(leaves, v)
+	}
 	for _, e := range p.Edges {
+		flat(e)
+	}
+	for _, e := range leaves {
 		l := lc.of(e)
 		if v, ok := l.t[atom]; ok && v == 1 && len(l.t) == 1 {
 			if l.c < 0 {
